@@ -65,8 +65,39 @@ PY
   done
 fi
 
+# 4. specificity audit: behaviour-preserving refactorings (benign/*.diff) that touch this property's anchored files
+#    are applied to a scratch copy; the rules must stay silent (anything they report beyond the current tree is a
+#    false alarm of the checker). Recorded, never changes the verdict on /repo.
+spec="$work/spec.jsonl"; : > "$spec"
+if [ -d "$here/benign" ] && [ "${UQ_SKIP_AUDIT:-0}" != "1" ]; then
+  for b in $(python3 - "$here/properties.jsonl" "$prop" "$here/benign" <<'PY'
+import json,sys,fnmatch,glob,os,re
+pats=[]
+for l in open(sys.argv[1]):
+    d=json.loads(l)
+    if d["id"]==sys.argv[2]: pats=d["anchors"]["files"]
+for f in sorted(glob.glob(os.path.join(sys.argv[3],"*.diff"))):
+    touched=re.findall(r'^\+\+\+ b/(\S+)', open(f).read(), flags=re.M)
+    if any(fnmatch.fnmatch(t,p) or (p.endswith('/') and t.startswith(p)) for t in touched for p in pats):
+        print(os.path.basename(f)[:-5])
+PY
+); do
+    d="$work/b"; rm -rf "$d"; mkdir -p "$d/ev"
+    rsync -a --exclude .git "$repo/" "$d/repo/"
+    if ! (cd "$d/repo" && patch -p1 -s --no-backup-if-mismatch < "$here/benign/$b.diff" >/dev/null 2>&1); then
+      echo "{\"patch\":\"$b\",\"status\":\"skipped: does not apply to the current tree\"}" >> "$spec"; rm -rf "$d"; continue
+    fi
+    "$bin" -property "$prop" -tier thorough -repo "$d/repo" -verif "$here" -evidence-dir "$d/ev" > "$d/out" 2>&1
+    new=$(grep -E "^  violated" "$d/out" | sed -E 's/ at [^ ]+:[0-9]+.*//; s/ at -:.*//' | sort -u | comm -23 - "$base_keys" | head -3 | sed 's/^  violated //' | tr '\n' '|' | sed 's/"/\\"/g')
+    if [ -n "$new" ]; then st="FALSE ALARM"; else st="silent"; fi
+    echo "{\"patch\":\"$b\",\"status\":\"$st\",\"by\":\"$new\"}" >> "$spec"
+    [ "$st" = "silent" ] || echo "[specificity] $b: $st ${new:0:160}"
+    rm -rf "$d"
+  done
+fi
+
 # merge into the evidence file
-python3 - "$here/evidence/$prop.json" "$work/ev386/$prop.json" "$audit" "$t0" <<'PY'
+python3 - "$here/evidence/$prop.json" "$work/ev386/$prop.json" "$audit" "$t0" "$spec" <<'PY'
 import json,sys,time
 ev=json.load(open(sys.argv[1]))
 try:
@@ -80,11 +111,16 @@ audit=[json.loads(l) for l in open(sys.argv[3]) if l.strip()]
 ev["coverage"]["sensitivity_audit"]={"what":"confirmed seeded property-breaking changes (seeded/<id>/patch.diff) applied to a scratch copy of the current tree; the rules must report a violation absent from the current tree",
   "seeds":audit,"applied":sum(1 for a in audit if not a["status"].startswith("skipped")),"detected":sum(1 for a in audit if a["status"]=="detected")}
 ev["coverage"]["evaluations"]=ev["coverage"].get("evaluations",0)+sum(1 for a in audit if not a["status"].startswith("skipped"))
+sp=[json.loads(l) for l in open(sys.argv[5]) if l.strip()]
+ev["coverage"]["specificity_audit"]={"what":"behaviour-preserving refactorings (benign/<id>.diff) touching this property's anchored files, applied to a scratch copy of the current tree; the rules must report nothing beyond the current tree",
+  "patches":sp,"applied":sum(1 for a in sp if not a["status"].startswith("skipped")),"silent":sum(1 for a in sp if a["status"]=="silent")}
+ev["coverage"]["evaluations"]=ev["coverage"].get("evaluations",0)+sum(1 for a in sp if not a["status"].startswith("skipped"))
 ev["wall_s"]=time.time()-float(sys.argv[4])
 ev["tier"]="thorough"
 json.dump(ev,open(sys.argv[1],"w"),indent=1)
 a=ev["coverage"]["sensitivity_audit"]
-print(f"[thorough] GOARCH=386 re-evaluated; sensitivity audit: {a['detected']}/{a['applied']} seeded changes detected")
+b=ev["coverage"]["specificity_audit"]
+print(f"[thorough] GOARCH=386 re-evaluated; sensitivity audit: {a['detected']}/{a['applied']} seeded changes detected; specificity audit: {b['silent']}/{b['applied']} behaviour-preserving refactorings leave the rules silent")
 PY
 if [ $rc1 -eq 1 ] || [ $rc2 -eq 1 ]; then exit 1; fi
 exit 0
